@@ -1,6 +1,7 @@
 import Q1t.Proofs.Builders
 import Q1t.Proofs.NoPanicRoute
 import Q1t.Proofs.NoPanicStabC03
+import Q1t.Proofs.NoPanicStabRefuseC03
 import Q1t.Proofs.C18Witness
 import Q1t.Proofs.ExportNoPanicOQBridge
 import Q1t.Proofs.ExportNoPanicCQBridge
@@ -285,6 +286,100 @@ theorem reps_same_constructor_unconditional {α : Type} [CommRing α] [Amp α Em
   reps_same_constructor_partial hα half nq nc calls shots (Q1t.Proofs.DetPlan.detShapeHolds_generated nq) hwf hstab
     dv ds rv rs dv' ds' hv hs
 
+/-! ### the refusal path: a caller-chosen stabilizer representation and a term that does not claim a rule
+
+`execute()` chooses the stabilizer representation only when `is_stabilizer_circuit()` holds, but
+`execute_with(.., QuStateRepr::stabilizer)` and `StabilizerState` itself accept any circuit.  Then the tableau
+refuses the first non-claiming term that is actually applied with the ERROR `NotAStabilizer`, from row 0 of the
+first column, before anything is written (`Proofs/NoPanicStabRefuseC03.lean`: `reach_refuses`, from C06's model via
+`refuse_exact` — for a well-formed term on a slice of its width the refusal is `NotAStabilizer`, not an arity error and
+not the index panic of `Composite::conjugate`). -/
+
+/-- **every `ExecWF` circuit on the stabilizer representation, whatever its gates**: every oracle run ends `Ok` (in the
+invariant) or `Err(NotAStabilizer)` — no other error, no panic.  (A CONDITIONAL gate that does not claim is only
+refused when some shot satisfies its condition: `apply_conditional_gate` conjugates only those columns; hence `Ok`
+stays possible for circuits with such gates.) -/
+theorem stabilizer_ok_or_refuses_partial {W : Type} (half : W) (nq nc : Nat) (calls : List (Call Empty)) (shots : Nat)
+    (hwf : ExecWF (runCalls (Circ.new nq nc) calls).1 shots = true)
+    (s0 : StabState) (c0 : List Nat) (hs0 : s0 = StabState.new nq shots ∨ StabInv nq shots s0) (hc0 : c0.length = shots)
+    (ds : List Prog.Draw) (r : Except Fail (StabState × List Nat)) (ds' : List Prog.Draw)
+    (hrun : Prog.runOracle (execOps (stabBackend (α := W) half Gen.phaseTable
+      (Q1t.Proofs.TabG.conjOfT (A := Empty) Gen.conjTable Gen.conjNoArityCheck)) s0 c0
+      (runCalls (Circ.new nq nc) calls).1.ops) ds = some (r, ds')) :
+    (∃ s c, r = .ok (s, c) ∧ StabInv nq shots s ∧ c.length = shots) ∨ r = .error (.err .notAStabilizer) := by
+  have hsz := runCalls_ops (Circ.new (P := Empty) nq nc) calls
+  obtain ⟨hN, hgood⟩ := execWF_opGood hwf (by
+    rw [hsz.2.1, hsz.2.2]; exact built_inRange nq nc calls)
+  rw [hsz.2.1, hsz.2.2] at hgood
+  have hinv : StabInv nq shots s0 := by
+    rcases hs0 with h | h
+    · rw [h]; exact Q1t.Proofs.TabG.new_sinv_reach _ _ _ nq shots hN
+    · exact h
+  have := (Q1t.Proofs.TabG.execOps_stab_any_generated half nq shots nc hN _ hgood s0 c0 hinv hc0).sound ds r ds' hrun
+  match r, this with
+  | .ok (s, c), h => exact Or.inl ⟨s, c, rfl, h.1, h.2⟩
+  | .error (.err e), h => exact Or.inr (by rw [show e = _ from h])
+  | .error (.panic site), h => exact absurd h (by simp [Outcome])
+
+/-- **stabilizer_refuses_nonclaiming_partial**: an `ExecWF` circuit built through the public calls whose operations
+are `pre ++ gate(g, bits) :: post`, where `is_stabilizer_circuit()` holds of `pre` and the term `g` does NOT claim a
+rule (`is_stabilizer() = false`: `T`, a rotation, a `C<G>`, a `Kron` / `Composite` / `Loop` with such a part): on
+the stabilizer representation EVERY oracle run — from the fresh state or any state of the invariant, all register
+sizes, shots, draws — ends in `Err(NotAStabilizer)`: never `Ok`, never a panic, no other error.  The operations of
+`pre` run as in `no_panic_stabilizer_unconditional` (no error at all: the proof runs them under `okErr = ∅`), the error
+is the answer of `apply_gate(g, bits)` on the first column. -/
+theorem stabilizer_refuses_nonclaiming_partial {W : Type} (half : W) (nq nc : Nat) (calls : List (Call Empty))
+    (shots : Nat) (hwf : ExecWF (runCalls (Circ.new nq nc) calls).1 shots = true)
+    (pre post : List (COp Empty)) (g : GateTerm Empty) (bits : List Nat)
+    (hops : (runCalls (Circ.new nq nc) calls).1.ops = pre ++ .gate g bits :: post)
+    (hpre : Conj.isStabilizerCircuit pre = true) (hg : Conj.isStabilizer g = false)
+    (s0 : StabState) (c0 : List Nat) (hs0 : s0 = StabState.new nq shots ∨ StabInv nq shots s0) (hc0 : c0.length = shots)
+    (ds : List Prog.Draw) (r : Except Fail (StabState × List Nat)) (ds' : List Prog.Draw)
+    (hrun : Prog.runOracle (execOps (stabBackend (α := W) half Gen.phaseTable
+      (Q1t.Proofs.TabG.conjOfT (A := Empty) Gen.conjTable Gen.conjNoArityCheck)) s0 c0
+      (runCalls (Circ.new nq nc) calls).1.ops) ds = some (r, ds')) :
+    r = .error (.err .notAStabilizer) := by
+  have hsz := runCalls_ops (Circ.new (P := Empty) nq nc) calls
+  obtain ⟨hN, hgood⟩ := execWF_opGood hwf (by
+    rw [hsz.2.1, hsz.2.2]; exact built_inRange nq nc calls)
+  rw [hsz.2.1, hsz.2.2, hops] at hgood
+  rw [hops] at hrun
+  have hinv : StabInv nq shots s0 := by
+    rcases hs0 with h | h
+    · rw [h]; exact Q1t.Proofs.TabG.new_sinv_reach _ _ _ nq shots hN
+    · exact h
+  have := (Q1t.Proofs.TabG.execOps_stab_refuses_generated half nq shots nc hN pre post g bits hgood hpre hg s0 c0
+    hinv hc0).sound ds r ds' hrun
+  match r, this with
+  | .ok _, h => exact h.elim
+  | .error (.err e), h => rw [show e = _ from h]
+  | .error (.panic site), h => exact absurd h (by simp [Outcome])
+
+/-- **never silently wrong**: on such a circuit the vector representation returns `Ok` (or the numeric panic) and
+the stabilizer representation returns `Err(NotAStabilizer)` — it never returns a result for a gate it cannot
+simulate. -/
+theorem nonclaiming_vector_ok_stabilizer_err_partial {α : Type} [CommRing α] [Amp α Empty] [SimAmp α]
+    (hα : LawfulAmp α Empty) {W : Type} (half : W) (nq nc : Nat) (calls : List (Call Empty)) (shots : Nat)
+    (hwf : ExecWF (runCalls (Circ.new nq nc) calls).1 shots = true)
+    (pre post : List (COp Empty)) (g : GateTerm Empty) (bits : List Nat)
+    (hops : (runCalls (Circ.new nq nc) calls).1.ops = pre ++ .gate g bits :: post)
+    (hpre : Conj.isStabilizerCircuit pre = true) (hg : Conj.isStabilizer g = false)
+    (dv ds : List Prog.Draw) (rv : Except Fail (VecState α × List Nat)) (rs : Except Fail (StabState × List Nat))
+    (dv' ds' : List Prog.Draw)
+    (hv : Prog.runOracle (execOps (vecBackend (α := α) (P := Empty)) (VecState.new nq shots)
+      (List.replicate shots 0) (runCalls (Circ.new nq nc) calls).1.ops) dv = some (rv, dv'))
+    (hs : Prog.runOracle (execOps (stabBackend (α := W) half Gen.phaseTable
+      (Q1t.Proofs.TabG.conjOfT (A := Empty) Gen.conjTable Gen.conjNoArityCheck)) (StabState.new nq shots)
+      (List.replicate shots 0) (runCalls (Circ.new nq nc) calls).1.ops) ds = some (rs, ds')) :
+    ((∃ x, rv = .ok x) ∨ rv = .error (.panic "WeightedIndex::new(..).unwrap()")) ∧
+      rs = .error (.err .notAStabilizer) := by
+  constructor
+  · rcases no_panic_partial hα nq nc calls shots hwf dv rv dv' hv with ⟨s, c, h, _⟩ | h
+    · exact Or.inl ⟨_, h⟩
+    · exact Or.inr h
+  · exact stabilizer_refuses_nonclaiming_partial half nq nc calls shots hwf pre post g bits hops hpre hg _ _
+      (Or.inl rfl) (by simp) ds rs ds' hs
+
 /-! ## the exporters
 
 FULL statement: every circuit whose building calls succeeded is exported to every format without a panic.
@@ -348,6 +443,14 @@ measure_all) is `ExecWF` and a stabilizer circuit; a circuit with `T` is not one
 example : ExecWF (runCalls (Circ.new 2 2) wGood).1 3 = true ∧
     Conj.isStabilizerCircuit (runCalls (Circ.new 2 2) wGood).1.ops = true ∧
     Conj.isStabilizerCircuit (runCalls (Circ.new (P := Empty) 1 1) [.addGate .T [0]]).1.ops = false := by decide +kernel
+
+/-- the hypotheses of `stabilizer_refuses_nonclaiming_partial` are satisfiable: `h 0; T 0; measure` -/
+example : ExecWF (runCalls (Circ.new (P := Empty) 1 1) [.h 0, .addGate .T [0], .measure 0 0]).1 2 = true ∧
+    (runCalls (Circ.new (P := Empty) 1 1) [.h 0, .addGate .T [0], .measure 0 0]).1.ops =
+      [.gate .H [0]] ++ .gate .T [0] :: [.measure 0 0 .Z] ∧
+    Conj.isStabilizerCircuit ([.gate .H [0]] : List (COp Empty)) = true ∧
+    Conj.isStabilizer (.T : GateTerm Empty) = false :=
+  ⟨by decide +kernel, rfl, by decide +kernel, by decide +kernel⟩
 
 /-- the builders reject: `cx(0, 5)` on two qubits is `InvalidQBit(5)` and leaves the circuit alone -/
 example : (step (Circ.new (P := Empty) 2 1) (.cx 0 5)).2 = .error (.err (.invalidQBit 5)) ∧
